@@ -95,6 +95,8 @@ def scan_harnesses():
                 "tiers": meta.get("tier", "quick,thorough").split(","),
                 "panic": meta.get("panic", "undecided"),
                 "replay": meta.get("replay", "native"),
+                "cbmc_args": [x for x in meta.get("cbmc_args", "").split(";") if x],
+                "unwindset": [tuple(x.rsplit(":", 1)) for x in meta.get("unwindset", "").split(",") if ":" in x],
                 "obligations": sorted(set(re.findall(r'"(C\d\d/[^"\s]+)"', btxt))),
                 "stubs": re.findall(r"kani::stub(?:_verified)?\(([^)]*)\)", atxt),
                 "stub_verified": re.findall(r"kani::stub_verified\(([^)]*)\)", atxt),
@@ -121,6 +123,19 @@ def run_harnesses(harnesses, jobs=4, harness_timeout=900, outer_timeout=3600, ta
     cmd += ["--harness-timeout", f"{harness_timeout}s", "-j", str(jobs), "--output-format", "terse",
             "--export-json", jpath]
     t0 = time.time()
+    uws, uw_notes = resolve_unwindsets(harnesses)
+    extra = []
+    for h in harnesses:
+        for a in h.get("cbmc_args", []):
+            if a not in extra:
+                extra.append(a)
+    cb = []
+    if uws:
+        cb += ["--unwindset", ",".join(f"{k}:{v}" for k, v in sorted(uws.items()))]
+    for a in extra:
+        cb += a.split()
+    if cb:
+        cmd += ["--cbmc-args"] + cb
     killed = []
     proc = subprocess.Popen(cmd, cwd=REPO, env=ENV, stdout=subprocess.PIPE, stderr=subprocess.STDOUT, text=True,
                             start_new_session=True)
@@ -174,6 +189,38 @@ def run_harnesses(harnesses, jobs=4, harness_timeout=900, outer_timeout=3600, ta
     if rc != 0 and not results:
         raw["build_failed"] = bool(re.search(r"error(\[E\d+\])?:", out)) or True
     return results, raw
+
+
+def resolve_unwindsets(harnesses):
+    """Per-loop unwinding bounds: harness annotations name loops by a substring of the function's
+    pretty name; loop ids are discovered on every run with `cbmc --show-loops` on the harness's goto
+    binary (ids contain crate hashes and impl ordinals, so they are never hard-coded).
+    Unwinding assertions stay on, so a bound that is too small yields UNDECIDED, never a wrong verdict."""
+    need = [h for h in harnesses if h.get("unwindset")]
+    if not need:
+        return {}, []
+    cmd = ["cargo", "kani"] + KANI_FLAGS + ["--target-dir", TARGET, "--exact", "--only-codegen"]
+    for h in harnesses:
+        cmd += ["--harness", h["full"]]
+    subprocess.run(cmd, cwd=REPO, env=ENV, capture_output=True, text=True)
+    out, notes = {}, []
+    for h in need:
+        suffix = f"{len(h['name'])}{h['name']}.out"
+        cands = [f for f in glob.glob(os.path.join(TARGET, "kani", "*", "debug", "build", "*", "*", "out", "*" + suffix))
+                 if not f.endswith(".symtab.out")]
+        if not cands:
+            notes.append(f"no goto binary found for {h['name']}")
+            continue
+        f = max(cands, key=os.path.getmtime)
+        p = subprocess.run(["cbmc", "--show-loops", f], capture_output=True, text=True)
+        loops = re.findall(r"^Loop (\S+):\n\s+file .*? function (.*)$", p.stdout, re.M)
+        for pat, n in h["unwindset"]:
+            hit = [lid for lid, fn in loops if pat in fn or pat in lid]
+            if not hit:
+                notes.append(f"{h['name']}: unwindset pattern {pat!r} matched no loop")
+            for lid in hit:
+                out[lid] = max(int(n), int(out.get(lid, 0)))
+    return out, notes
 
 
 def classify(h, r):
